@@ -199,9 +199,15 @@ func (e *Env) installHooks() func() {
 		}
 	}
 	ro.OnDroppedNotification = func(ctx context.Context, n fmt.Stringer) {
-		e.Dropped = append(e.Dropped, n.String())
+		// only int notifications are rendered: String() on a notification that carries an observable
+		// (windows, groups) would walk the subject's internals with reflection, racing with the library
+		txt := fmt.Sprintf("%T", n)
+		if ni, ok := n.(ro.Notification[int]); ok {
+			txt = ni.String()
+		}
+		e.Dropped = append(e.Dropped, txt)
 		if simrt.Active() {
-			e.K.Log("dropped " + n.String())
+			e.K.Log("dropped " + txt)
 		}
 	}
 	return func() { ro.OnUnhandledError, ro.OnDroppedNotification = oldU, oldD }
